@@ -24,11 +24,16 @@ json-writer writes for it, embedded as an object literal behind `const <Name> = 
 from the standards (`Spec/JsonText.lean`: RFC 8259 `JSON.parse`; the literal subset of ECMA-262 expressions): every string
 is read back (`json_string_roundtrip`), every tree is (`json_text_roundtrip`, `js_literal_roundtrip`), and text → JSON →
 `DocumentNode` gives `[X] ++ closure`, positions erased (`C12_text_level`, `C12_text_closure*`, `C12_text_from_files*`),
-also in place inside the module text (`C12_text_embedded_js/_ts`, `C12_text_module_js`).
-STILL CARRIED BY K/O ONLY: that the real printers write the characters the text model (`PrintMap.jsonText`, the statements
-of `Lemmas/PrintMapBodyFile.lean`) says — C06's call-by-call comparison and this property's tree comparison through
-serde_json; that an ECMAScript engine reads a literal as `Spec/JsonText.lean JsLit` transcribes ECMA-262 (ES2019+); the
-parser's reading of the source text (C07).
+also in place inside the module text (`C12_text_embedded_js/_ts`, `C12_text_module_js/_ts`).
+OPEN — STILL CARRIED BY K/O ONLY: that the models are the code (`harness/src/bin/c12.rs`: JSON trees of three real output
+paths and of interleaved loader sessions against `toJson`); that the real printers write the characters the text model
+(`PrintMap.jsonText`, the statements of `Lemmas/PrintMapBodyFile.lean`) says — C06's call-by-call comparison and this
+property's tree comparison through serde_json (the readers of `Spec/JsonText.lean` are never run on real output); that an
+ECMAScript engine reads a literal as `Spec/JsonText.lean JsLit` transcribes ECMA-262 (ES2019+); the parser's reading of the
+source text (C07) and that its output is `Resolved`; the glue of the second stage (`materialise`, `findUndefined`: hand
+transcriptions) and the operation-checker model `CheckOp.checkOp` its theorems refer to (tied to the code by C03/C08's K).
+`C12_panic_only_on_undefined` is stated for operations; for a fragment `C12_terminates` excludes `outOfFuel`, which leaves
+`fragmentNotFound` as the only error, and `C12_from_files_missing_frag` shows the reachable undefined name in its setting.
 -/
 namespace NitroVerif.C12
 open NitroVerif NitroVerif.Gql NitroVerif.DocJson NitroVerif.ReadDoc NitroVerif.FragClosure
